@@ -148,6 +148,8 @@ def _san(tier):
         {"engine": "san", "args": {"mode": "mini", "persistent": 1, "big": 1, "ops": 50}},
         {"engine": "live", "args": {"mode": "live", "runs": 8 if q else 80, "threads": 4}},
         {"engine": "san", "args": {"mode": "direct", "rounds": 20 if q else 200}},
+        {"engine": "sweep", "shards": 1 if q else 4, "args": {"mode": "sweeper", "runs": 3 if q else 24}},
+        {"engine": "san", "shards": 2 if q else 8, "args": {"mode": "mini", "ops": 300, "sweeper": 1}},
         {"engine": "fault", "shards": 8 if q else 1, "args": {"threads": 8, "io": "uring"}, "only_shards": [0] if q else None},
     ]}
     tsan = {"lane": "tsan", "parallel": 6, "runs": [
@@ -155,9 +157,12 @@ def _san(tier):
         {"engine": "conc", "shards": 1 if q else 6, "args": {"mode": "scan", "runs": 2 if q else 20}},
         {"engine": "conc", "shards": 1 if q else 6, "args": {"mode": "reuse", "runs": 1 if q else 20}},
         {"engine": "san", "args": {"mode": "mini", "persistent": 1, "big": 1, "ops": 300}},
+        {"engine": "sweep", "shards": 1 if q else 4, "args": {"mode": "sweeper", "runs": 2 if q else 16}},
+        {"engine": "san", "shards": 1 if q else 4, "args": {"mode": "mini", "ops": 300, "sweeper": 1}},
     ]}
     miri = {"lane": "miri", "parallel": 8, "runs": [
         {"engine": "san", "shards": 6 if q else 64, "args": {"mode": "mini", "ops": 8 if q else 14}},
+        {"engine": "san", "shards": 2 if q else 16, "args": {"mode": "mini", "ops": 8 if q else 14, "sweeper": 1}},
         {"engine": "san", "shards": 1 if q else 8, "args": {"mode": "mini", "ops": 4, "persistent": 1}},
     ]}
     memcheck = {"lane": "memcheck", "parallel": 8, "runs": [
